@@ -162,3 +162,5 @@ def run(ctx):
   ctx.check(isinstance(rb, ast.Constant) and rb.value is True, 'C05.hook', construct(vf), 'bindings are required by default', 'require_bindings no longer defaults to True', vf.loc(), instance='default')
   from .c15 import macro_always_applied
   macro_always_applied(ctx, 'C05.key')
+  from .common import bind_always_writes
+  bind_always_writes(ctx, 'C05.late')
